@@ -1,9 +1,12 @@
 #!/bin/bash
-# runs every claimed check at the given tier and prints one summary line each
-tier=${1:-quick}
+# runs every claimed check (or the listed ones) at the given tier and prints one summary line each
+# usage: tools/runall.sh [quick|thorough] [id ...]
+tier=${1:-quick}; shift
 cd "$(dirname "$0")/.."
 mkdir -p /tmp/runall-$tier
-for id in $(python3 -c "import json; print(' '.join(c['property_id'] for c in json.load(open('MANIFEST.json'))['checks']))"); do
+ids="$*"
+[ -n "$ids" ] || ids=$(python3 -c "import json; print(' '.join(c['property_id'] for c in json.load(open('MANIFEST.json'))['checks']))")
+for id in $ids; do
   s=$(date +%s)
   ./check $id $tier > /tmp/runall-$tier/$id.log 2>&1
   rc=$?
